@@ -4,7 +4,8 @@
    its equality with the graph definition (spec/FcSpec.v fc_spec) is C05 (worker vecidx) and is NOT
    assumed here: every statement below is about the index' own answers. *)
 From Coq Require Import NArith List.
-From LV Require Import model.VecIndex model.Abft model.AbftRun
+From LV Require Import model.VecIndex spec.FcSpec model.Abft model.AbftRun
+  proofs.VecInv proofs.VecStep proofs.AbftRunInv proofs.AbftInv proofs.AbftInvStep proofs.AbftGraph
   proofs.AbftIds proofs.AbftFrame proofs.AbftBuild proofs.AbftWitness proofs.AbftOld.
 Import ListNotations.
 Local Open Scope N_scope.
@@ -70,6 +71,49 @@ Theorem C04_built_then_processed : forall es v s1 s2 roots e1 e2 spf fr,
   exists fr', frame_pure es v s2 roots e2 true = Ok (spf, fr') /\ a_frame e2 = fr'.
 Proof. exact built_then_processed. Qed.
 
+(* ================= Round 2: the statements over the GRAPH definition =================
+   J (proofs/AbftInv.v) ties the state to the graph of accepted events: the index satisfies worker vecidx'
+   invariant (so fc = FcSpec.fc_spec and merged = merged_spec: C05/C06), indexed ids = accepted ids, the root
+   table = the root slots {(g, creator e, id e) | self-parent frame(e) < g <= frame(e), e accepted}.
+   J holds at genesis and is preserved by every operation (C04_J_on_every_run) when the events that pass the
+   application guard are well-formed for the index ([wf_new], the eventcheck facts: hypothesis of C05).
+   quorum_graph i E a g = "the validators owning an accepted event that is a root slot of frame g and
+   forkless-causes a (fc_spec on E) hold a quorum"; allowed_graph = the frame rule over it. *)
+Theorem C04_process_iff_allowed_graph : forall cap eb i e, J i -> guard i e true = None ->
+  wf_new (length (l_vals (i_st i))) (l_idx (i_st i)) (vev (l_vals (i_st i)) e) ->
+  exists s', add (l_idx (i_st i)) (vev (l_vals (i_st i)) e) = Some s' /\
+    vinv (length (l_vals (i_st i))) s' /\
+    evs s' = (a_id e, vev (l_vals (i_st i)) e) :: evs (l_idx (i_st i)) /\
+    (cache_ok (a_id e) (set_idx (i_st i) s') ->
+     (fst (fst (process cap eb (aput (a_id e) e (i_es i)) (i_st i) e)) = Err EWrongFrame <->
+      ~ allowed_graph i (evs s') e (spf_in (i_es i) e) (a_frame e))).
+Proof. exact process_iff_allowed_graph. Qed.
+
+Theorem C04_build_highest_graph : forall i s' e spf fr, J i ->
+  vinv (length (l_vals (i_st i))) s' -> evs s' = (a_id e, vev (l_vals (i_st i)) e) :: evs (l_idx (i_st i)) ->
+  frame_pure (i_es i) (l_vals (i_st i)) s' (l_roots (i_st i)) e false = Ok (spf, fr) ->
+  (a_self_parent e <> None -> 1 <= spf) ->
+  allowed_graph i (evs s') e spf fr /\
+  (a_self_parent e <> None -> fr = spf + 100 \/ quorum_graph i (evs s') (a_id e) fr = false).
+Proof. exact build_highest_graph. Qed.
+
+(* the invariants hold before every operation of every run in which nothing died (crit) before *)
+Theorem C04_J_on_every_run : forall cap pol smp epoch raw ops,
+  ops_wf cap pol smp (start epoch raw) ops -> alive cap pol smp (start epoch raw) ops ->
+  J (run_inst cap pol smp (start epoch raw) ops) /\ good (i_st (run_inst cap pol smp (start epoch raw) ops)).
+Proof. intros. apply run_J; auto; [apply start_J | apply start_good]. Qed.
+
+(* non-vacuity of the round-2 hypotheses: at genesis J holds, the first witness event passes the guard and is
+   well-formed for the (empty) index *)
+Example C04_graph_hypotheses_satisfiable :
+  J (start 1 w_vals) /\ guard (start 1 w_vals) a1 true = None /\
+  wf_new (length (l_vals (i_st (start 1 w_vals)))) (l_idx (i_st (start 1 w_vals))) (vev (l_vals (i_st (start 1 w_vals))) a1).
+Proof.
+  split; [apply start_J|]. split; [vm_compute; reflexivity|].
+  unfold wf_new. split; [reflexivity|]. split; [vm_compute; repeat constructor|]. split; [vm_compute; discriminate|].
+  split; [intros p []|]. reflexivity.
+Qed.
+
 (* non-vacuity: the hypotheses of C04_build_any_history hold on a concrete state with six processed
    events (ids with tail byte 0x80, as the harness draws them) and counters below 2^191, and the
    theorem's conclusion there is "frame 2 after 255 earlier builds" *)
@@ -89,3 +133,6 @@ Print Assumptions C04_frame_fuel_enough.
 Print Assumptions C04_build_highest.
 Print Assumptions C04_build_any_history.
 Print Assumptions C04_built_then_processed.
+Print Assumptions C04_process_iff_allowed_graph.
+Print Assumptions C04_build_highest_graph.
+Print Assumptions C04_J_on_every_run.
